@@ -254,18 +254,23 @@ def rankOf (i : Nat) : Nat → List (Nat × α) → Option Nat
   | _, [] => none
   | k, (j, _) :: r => if i = j then some k else rankOf i (k + 1) r
 
+/-- the (index, value) pairs of the defined entries: the vector `ix` of `sortOrder` with the values -/
+def definedIdx (en : List (Nat × Option α)) : List (Nat × α) :=
+  en.filterMap fun x => x.2.map fun y => (x.1, y)
+
+/-- the rank of one entry: undefined stays undefined -/
+def rankAt (sorted : List (Nat × α)) (x : Nat × Option α) : Option Nat :=
+  match x.2 with
+  | none => none
+  | some _ => rankOf x.1 1 sorted
+
 /-- the ranks `sortOrder` hands out, as natural numbers: position (1-based) of each defined
 element in the sorted index vector `ix`; undefined elements have none.  Tie rule of THIS model:
 insertion in input order = stable — what libstdc++'s `std::sort` does for at most 16 elements
 (`_S_threshold`; plain `__insertion_sort`).  Above that size `std::sort` is an introsort whose tie
 order is deterministic but unspecified; there the code is tied to `isSortRank` instead. -/
 def sortRanks (before : α → α → Bool) (vs : List (Option α)) : List (Option Nat) :=
-  let idx := (enumFrom 0 vs).filterMap fun (i, v) => v.map fun x => (i, x)
-  let sorted := sortBy before idx
-  (enumFrom 0 vs).map fun (i, v) =>
-    match v with
-    | none => none
-    | some _ => rankOf i 1 sorted
+  (enumFrom 0 vs).map (rankAt (sortBy before (definedIdx (enumFrom 0 vs))))
 
 /-- `result.assign(i, sort_value)`: the rank as a double -/
 def rankEntry (F : Fns α) (e : String × Option α) (r : Option Nat) : String × Option α :=
